@@ -46,6 +46,9 @@ func (l *queryLog) encodeEntries(ctx context.Context) (b *bytes.Buffer, err erro
 
 	b = &bytes.Buffer{}
 	e := json.NewEncoder(b)
+	// The quick pre-match of a search compares terms with the raw text of a
+	// line, so "&", "<" and ">" must be stored as they are.
+	e.SetEscapeHTML(false)
 
 	l.buffer.Range(func(entry *logEntry) (cont bool) {
 		err = e.Encode(entry)
